@@ -61,7 +61,13 @@ def seeds():
            "tree, the pinned 288 tests still pass with the change, demo fails with it) and is kept under `seeded/<id>/`",
            "(`patch.diff`, `demo.py`, `meta.json`). Detection = `./check <property> quick` on a worktree with the patch applied.",
            "Seeds -1/-2 are the first round, -3/-4 a second round whose authors were asked for changes a reviewer of the main",
-           "path would overlook (rare options, one-framework-only code, error paths, boundaries, cross-module agreement).",
+           "path would overlook (rare options, one-framework-only code, error paths, boundaries, cross-module agreement),",
+           "-5/-6 a third round whose authors were additionally told which four changes per property already existed and asked",
+           "for a different site and mechanism. First-run detection by the property's own quick check: round 1 33/40 (+1 by a",
+           "neighbouring check), round 2 23/40 (+1), round 3 21/40; the misses of each round were configuration plumbing",
+           "(setProtocolOptions, factory -> connection), object re-use across lives/connections, tri-state options, re-entrant",
+           "delivery inside send(), rarely used API variants (streaming/prepared send, frame-based receive) and state that",
+           "must be invalidated on mutation; each was turned into a generator dimension / oracle clause / model part.",
            "`[first run: missed; strengthened]` marks seeds the check of their property did NOT catch when first run; the check",
            "was then extended (new event kinds / generators / oracle clauses / model parts, described in the builder reports",
            "and in the check's evidence `rule`) and the row shows the result after that.", "",
